@@ -219,6 +219,7 @@ def O3(ctx):
 # ---------------------------------------------------------------------------------------- C03
 
 def M1(ctx):
+    """Coherence bookkeeping steps of State::load/rmw/store present on every path and in order."""
     prog = ctx.prog
     ev = {"track_load": ST + "track_load", "coherence": ST + "apply_load_coherence", "touch": first_seen_recorders(prog),
           "sync_load": "rt::synchronize::Synchronize::sync_load", "sync_store": "rt::synchronize::Synchronize::sync_store",
@@ -299,6 +300,7 @@ def M1(ctx):
 
 
 def M2(ctx):
+    """RMWs read only mo-maximal stores, inherit the read store's sync (release sequence), store exactly once on Ok and return the previous value."""
     prog = ctx.prog
     # RMW candidates come from match_rmw_to_stores
     ck = RT + "rmw::{closure#0}"
@@ -441,6 +443,7 @@ M3_ALLOWED = {
 
 
 def M3(ctx):
+    """Who-may-write on Store.{modification_order,sync,first_seen,happens_before,value} and State.cnt."""
     prog = ctx.prog
     n = 0
     for (adt, field), allowed in M3_ALLOWED.items():
@@ -616,6 +619,7 @@ def N2(ctx):
 
 
 def N3(ctx):
+    """compare_exchange / compare_and_swap / compare_exchange_weak / fetch_update shapes."""
     prog = ctx.prog
     # compare_exchange closure: Ok(new) iff actual == current else Err(actual)
     ck = L1 + "compare_exchange::{closure#0}"
@@ -703,6 +707,7 @@ def N3(ctx):
 
 
 def N4(ctx):
+    """Decode-before / encode-after discipline of rt::Atomic; most-recent-store index for unsync_load/with_mut; with_mut writes back."""
     prog = ctx.prog
     # rmw: decode before / encode after the user closure
     ck = RT + "rmw::{closure#0}::{closure#0}"
